@@ -55,6 +55,10 @@ def neutral(seq, cls, repl=120):
 def member(rng, cls, text=False):
     if cls == "UNI":
         return rng.choice([0x100, 0x3A9, 0x20AC, 0xFFFD, 0x1F600, 0x10FFFF])
+    if cls == "CR":          # CR and LF are distinct grammar symbols in the enumerated families
+        return 13
+    if cls == "LF":
+        return 10
     m = CLASS_MEMBERS[cls]
     return rng.choice(m)
 
